@@ -685,6 +685,34 @@ fn prog_ops(group: &str, t: NT, bin: &[(&'static str, &'static str)], un: &[(&'s
     Prog { group: group.to_string(), src: s, points }
 }
 
+/// like `prog_ops`, but the RIGHT operand of every operation is an integer LITERAL in the source
+/// (`x % 8`, `x / 16`, `x << 3`): constant right operands are where a code generator takes
+/// shortcuts (seeded change C08_2: `%` by a power-of-two literal as a mask, wrong for negative
+/// dividends), and they never occur when both operands come from arrays
+fn prog_ops_lit(group: &str, t: NT, ops: &[(&'static str, &'static str)], lits: &[u128], avals: &[u128], rng: &mut Rng) -> Prog {
+    let mut s = String::from(HEADER);
+    s.push_str(&array_decl("A", avals, t, rng));
+    s.push_str(&format!("\nrun :: () {{\n    wa := A;\n    i : usize = 0;\n    while i < {} {{\n", avals.len()));
+    s.push_str(&load_stmt("a", "wa", t));
+    for c in lits {
+        for (l, op) in ops {
+            let rb = if is_cmp(l) { 8 } else { t.bits };
+            s.push_str(&format!("        {{ x := a; r := x {op} {c}; {} }}\n", print_stmt(rb)));
+        }
+    }
+    s.push_str("        i += 1;\n    }\n    fflush(0);\n}\n\n");
+    s.push_str(FOOTER);
+    let mut points = vec![];
+    for x in avals {
+        for c in lits {
+            for (l, _) in ops {
+                points.push(Point::Bin { t, op: l, a: *x, b: *c });
+            }
+        }
+    }
+    Prog { group: group.to_string(), src: s, points }
+}
+
 /// `Ty::can_fit_into` on the numeric types (which implicit conversions the front end accepts)
 fn fits_into(from: NT, to: NT) -> bool {
     use Kind::*;
@@ -801,6 +829,26 @@ fn build_programs(tier: &str, widen: bool, rng: &mut Rng) -> Vec<Prog> {
                 }
                 for chunk in spairs.chunks(1500) {
                     progs.push(prog_ops(&format!("shift-{}", t.name), t, &SHIFTS, &[], chunk, rng));
+                }
+                // literal right operands (not for 128 bits: no division there)
+                if t.bits <= 64 {
+                    let top: u128 = if t.signed { (1u128 << (t.bits - 1)) - 1 } else { mask(t.bits) };
+                    let mut lits: Vec<u128> = vec![1, 2, 3, 4, 7, 8, 10, 16, 64, 100, 1u128 << (t.bits - 2), top];
+                    lits.retain(|c| *c <= top);
+                    let lits = dedup(lits);
+                    let mut avals = bs.clone();
+                    for _ in 0..(n_random / 2) {
+                        avals.push(random_int(t, rng));
+                    }
+                    let avals = dedup(avals);
+                    for chunk in avals.chunks(120) {
+                        progs.push(prog_ops_lit(&format!("lit-arith-{}", t.name), t, &ARITH, &lits, chunk, rng));
+                        progs.push(prog_ops_lit(&format!("lit-divrem-{}", t.name), t, &DIVREM, &lits, chunk, rng));
+                    }
+                    let amounts: Vec<u128> = dedup(vec![0, 1, 3, (t.bits / 2) as u128, (t.bits - 1) as u128]);
+                    for chunk in avals.chunks(200) {
+                        progs.push(prog_ops_lit(&format!("lit-shift-{}", t.name), t, &SHIFTS, &amounts, chunk, rng));
+                    }
                 }
             }
             Kind::Bool => {
